@@ -38,20 +38,27 @@ def solve(model, time_limit=60.0):
     A_ub = coo_matrix((rows_ub[2], (rows_ub[0], rows_ub[1])), shape=(len(b_ub), n)).tocsr() if b_ub else None
     A_eq = coo_matrix((rows_eq[2], (rows_eq[0], rows_eq[1])), shape=(len(b_eq), n)).tocsr() if b_eq else None
     res = linprog(cost * (1 if sense == 1 else -1), A_ub=A_ub, b_ub=b_ub or None, A_eq=A_eq, b_eq=b_eq or None, bounds=bounds, method="highs",
-                  options={"time_limit": time_limit})
+                  options={"time_limit": time_limit, "primal_feasibility_tolerance": 1e-10, "dual_feasibility_tolerance": 1e-10})
+    if res.status != 0:
+        res = linprog(cost * (1 if sense == 1 else -1), A_ub=A_ub, b_ub=b_ub or None, A_eq=A_eq, b_eq=b_eq or None, bounds=bounds, method="highs",
+                      options={"time_limit": time_limit})
     if res.status != 0:
         return None, int(res.status)
     return float(res.fun) * (1 if sense == 1 else -1), 0
 
 
-def first_stage_optimum(c, t):
-    """Optimum of the first-stage human-maximising model exactly as the repository builds it."""
+def first_stage_optimum(c, t, kind="to_humans", mhc=None):
+    """Optimum of the first-stage model of a round exactly as the repository builds it (no CBC involved)."""
     from pulp import LpMaximize, LpProblem
 
     from src.optimizer.optimizer import Optimizer
 
     opt = Optimizer(c, t)
-    model = LpProblem(name="optimization_nutrition", sense=LpMaximize)
+    if kind == "to_animals":
+        opt.time_consts["min_human_food_consumption"] = mhc
+        model = LpProblem(name="optimization_feed", sense=LpMaximize)
+    else:
+        model = LpProblem(name="optimization_nutrition", sense=LpMaximize)
     variables = opt.initial_variables.copy()
-    model, variables, _ = opt.add_variables_and_constraints_to_model(model, variables, c, optimization_type="to_humans")
+    model, variables, _ = opt.add_variables_and_constraints_to_model(model, variables, c, optimization_type=kind)
     return solve(model)
